@@ -31,7 +31,11 @@ def gen_wq(rng, tier):
             env["VR_FREEZE_LEN"] = rng.choice([5, 20, 80])
         elif env["VR_SCHED"] == "rand":
             env["VR_SWITCH"] = rng.choice([2, 2, 3, 5])
-        cases.append({"args": ["|".join(threads)], "env": env})
+        args = ["|".join(threads)]
+        if rng.random() < 0.25:
+            # a session that never drained: both counters just below 2^32 (or 2^31)
+            args.append(rng.choice([(1 << 32) - 2, (1 << 32) - 1, (1 << 31) - 1]))
+        cases.append({"args": args, "env": env})
     return cases
 
 
